@@ -81,17 +81,17 @@ def cases(tier, rng):
 def nontrivial(case, out):
     return 'SFired' in out
 
-STAGES = [dict(name='pairs', mode='app', coq='Check.C17c', cases=cases, nontrivial=nontrivial, shard=10, noshrink=True,
+STAGES = [dict(name='pairs', mode='app', coq='Check.C17c', cases=cases, nontrivial=nontrivial, shard=10, noshrink=True, across_processes=40,
                exhaustive={'thorough': False, 'quick': False},
                rule='random configurations of 2-5 context types split into a kept set R and a deleted set D whose bound inputs are disjoint (different keys, different required modifier keys, different '
                     'mouse and gamepad inputs), interleaved in priority, with consuming actions, built-in and scripted conditions and modifiers, 1-2 entities, a component op or rebuild in the middle; three runs '
-                    'per case: the full configuration, the configuration with D deleted and with extra activity on keys / a mouse button / gamepad inputs that nobody binds, and the full configuration again. '
+                    'per case: the full configuration, the configuration with D deleted and with extra activity on keys / a mouse button / gamepad inputs that nobody binds, and the full configuration again; all cases are run a second time in fresh processes and the traces compared byte by byte. '
                     'non-trivial = some action fires; distinct = distinct case text')]
 CLAUSES = {2: 'main-segment events of the kept contexts differ when the disjoint contexts are deleted / unbound inputs are active', 3: 'later events of the kept contexts differ', 4: 'the invocation log (reads, values, results) of the kept contexts differs',
            5: 'polled states, values or durations of the kept contexts differ', 6: 'the registry lookup of the kept contexts differs', 7: 'instances of the kept contexts were built differently', 9: 'traces of different length', 10: 'panic flag differs',
            21: 'two runs of the same configuration differ (events before the evaluation)', 22: 'two runs of the same configuration differ (main events)', 23: 'two runs differ (later events)', 24: 'two runs differ (invocation log)',
-           25: 'two runs differ (polled data)', 26: 'two runs differ (registry lookup)', 27: 'two runs differ (instances built)', 29: 'two runs of different length', 30: 'malformed case', 1: 'events before the evaluation differ'}
+           25: 'two runs differ (polled data)', 26: 'two runs differ (registry lookup)', 27: 'two runs differ (instances built)', 29: 'two runs of different length', 30: 'malformed case', 40: 'the same cases run in a second operating-system process gave a different trace (byte comparison of the harness output: hash seeds, addresses and the like differ between processes)', 1: 'events before the evaluation differ'}
 def describe(stage, clause): return CLAUSES.get(clause, 'clause %d' % clause)
 def matches_known(k, case, verdict): return False
-TRUSTED = TRUSTED_BASE + ['determinism: non-determinism from hash-map iteration or the scheduler cannot be exhibited by a functional model; the double run is supporting evidence (partial)']
+TRUSTED = TRUSTED_BASE + ['determinism: non-determinism from hash-map iteration or the scheduler cannot be exhibited by a functional model; the double run in one process and the byte comparison of the traces of two separate processes are supporting evidence (partial)']
 ASSUMES = ['disjointness as defined by Spec/ReadSpec.related in both directions']
